@@ -1,5 +1,6 @@
 import TantivyModel.Proofs.GrammarCharsPrintList
 import TantivyModel.Proofs.GrammarCharsPhrase
+import TantivyModel.Proofs.GrammarCharsField
 namespace TantivyModel.Grammar.Chars
 open TantivyModel.Grammar
 
@@ -80,11 +81,13 @@ theorem goodOpd_group (g : Bool) (lead : Nat) (occ : Option Occur) (o : Opd) (mo
     simp only [groupOpd, printList, List.length_cons, List.length_append, List.length_nil] at h2 ⊢
     omega
 
-/-- the well-formed fragment: plain words, double-quoted phrases without escapes, and parenthesised lists of well-formed operands with
+/-- the well-formed fragment: plain words, double-quoted phrases without escapes, either of them with a field prefix `name:`, and parenthesised lists of well-formed operands with
     markers, AND/OR and any layout -/
 inductive WFOpd : Opd → Prop where
   | word (w : Str) (hw : PlainWord w) : WFOpd (wordOpd w)
   | phrase (body : Str) (hb : PhraseBody body) : WFOpd (phraseOpd body)
+  | fieldWord (f w : Str) (hf : PlainWord f) (hw : PlainWord w) : WFOpd (fieldWordOpd f w)
+  | fieldPhrase (f body : Str) (hf : PlainWord f) (hb : PhraseBody body) : WFOpd (fieldPhraseOpd f body)
   | group (lead : Nat) (occ : Option Occur) (o : Opd) (more : List PItem) (k : Nat)
       (ho : WFOpd o) (hm : ∀ it ∈ more, WFOpd it.opd) : WFOpd (groupOpd lead occ o more k)
 
@@ -92,6 +95,8 @@ theorem wf_good (g : Bool) (o : Opd) (h : WFOpd o) : GoodOpd g o := by
   induction h with
   | word w hw => exact goodOpd_word g w hw
   | phrase body hb => exact goodOpd_phrase g body hb
+  | fieldWord f w hf hw => exact goodOpd_fieldWord g f w hf hw
+  | fieldPhrase f body hf hb => exact goodOpd_fieldPhrase g f body hf hb
   | group lead occ o more k _ _ iho ihm => exact goodOpd_group g lead occ o more k iho ihm
 
 /-- the whole strict parser on a printed operand list of well-formed operands -/
